@@ -297,3 +297,109 @@ pub fn run_exec<S: AS>(seed: u64, sseed: u64, mode: Mode, exec_no: u64) -> AccOu
     }
     AccOut { ops: nops_total, trace_hash }
 }
+
+// ---- projections over an `ArcSwapOption` (third-round seeds C04p / C17p: a store of the empty
+// value skipped the wait for readers). Sequential random programs: projection guards (plain load,
+// static Map, boxed DynAccess) are held across stores of Some / None and swaps; every guard must
+// keep projecting its snapshot, the snapshot must stay alive while a guard exists and be destroyed
+// once nobody owns it.
+
+static EMPTY_LEAF_ROOT: u64 = 0;
+
+fn opt_root_id(o: &Option<Arc<Root>>) -> &u64 {
+    match o {
+        Some(r) => &r.mid.leaf.root,
+        None => &EMPTY_LEAF_ROOT,
+    }
+}
+
+pub fn option_program<S>(seed: u64) -> u64
+where
+    S: arc_swap::strategy::Strategy<Option<Arc<Root>>> + Default + Send + Sync + 'static,
+{
+    let mut rng = Rng::new(seed);
+    let base = (seed & 0xFFFF_FFFF) << 24 | 0x8000_0000_0000_0000;
+    let mut next = base + 1;
+    let cont: Arc<ArcSwapAny<Option<Arc<Root>>, S>> = Arc::new(ArcSwapAny::new(Some(new_root(next))));
+    let mut current = next;
+    let mut views: Vec<View> = Vec::new();
+    let mut checked = 0u64;
+    let viol_before = crate::viol::count();
+    for _ in 0..rng.range(10, 40) {
+        match rng.below(6) {
+            0 | 1 if views.len() < 10 => {
+                let v = match rng.below(3) {
+                    0 => view(ArcSwapAny::load(&*cont), "ArcSwapOption::load", |g| *opt_root_id(g)),
+                    1 => {
+                        let m = Map::new(cont.clone(), |o: &Option<Arc<Root>>| opt_root_id(o));
+                        view(Access::load(&m), "Map over ArcSwapOption (static)", |g| **g)
+                    }
+                    _ => {
+                        let d: Box<dyn DynAccess<u64>> = Box::new(Map::new(cont.clone(), |o: &Option<Arc<Root>>| opt_root_id(o)));
+                        view(DynAccess::load(&*d), "Box<dyn DynAccess> over ArcSwapOption", |g| **g)
+                    }
+                };
+                if v.root != current {
+                    report("C17", "projection-stale", format!("[{}] on an ArcSwapOption projected {:x} although {:x} was stored last on the same thread", v.chain, v.root, current));
+                }
+                views.push(v);
+            }
+            2 => {
+                next += 1;
+                cont.store(Some(new_root(next)));
+                current = next;
+            }
+            3 => {
+                cont.store(None);
+                current = 0;
+            }
+            4 => {
+                let old = if rng.chance(1, 2) {
+                    current = 0;
+                    cont.swap(None)
+                } else {
+                    next += 1;
+                    current = next;
+                    cont.swap(Some(new_root(next)))
+                };
+                drop(old);
+            }
+            _ => {
+                if !views.is_empty() {
+                    let i = rng.below(views.len() as u64) as usize;
+                    let v = views.swap_remove(i);
+                    check_opt_view(&v, "at drop");
+                    let root = v.root;
+                    drop(v);
+                    // tight reclamation: nobody else projects it and it is not stored any more
+                    if root != 0 && root != current && !views.iter().any(|w| w.root == root) && !is_dropped(root) {
+                        report("C17", "snapshot-retained", format!("root {:x} is still alive although its last projection guard is gone and it was replaced", root));
+                    }
+                }
+            }
+        }
+        for v in views.iter() {
+            check_opt_view(v, "while held");
+            checked += 1;
+        }
+    }
+    while let Some(v) = views.pop() {
+        check_opt_view(&v, "at the end");
+        drop(v);
+    }
+    drop(cont);
+    *FLAGS.lock().unwrap() = None;
+    if crate::viol::count() != viol_before {
+        runner::collect_violations(&json!({"workload": "access/option-program", "seed": seed}));
+    }
+    checked
+}
+
+fn check_opt_view(v: &View, when: &str) {
+    let now = (v.read)();
+    if now != v.root {
+        report("C17", "projection-changed", format!("a guard from [{}] showed root {:x} at creation and {:x} {}", v.chain, v.root, now, when));
+    } else if v.root != 0 && is_dropped(v.root) {
+        report("C17", "snapshot-dropped", format!("root {:x} was destroyed while a guard from [{}] still projects it ({})", v.root, v.chain, when));
+    }
+}
